@@ -1,7 +1,9 @@
 (* C18 — JWTs are recognised structurally and their registered fields shown faithfully.
-   Only statements; proofs are in Proofs/Jwt.v.  [J] is the encoding/json oracle: what
-   json.Unmarshal into a map[string]any returned for the decoded bytes (object with that
-   content / null / error); every theorem holds for every such function.
+   Only statements; proofs are in Proofs/Jwt.v, JwtDate.v, JwtDispatch.v, JwtJson.v.  [J] stands for
+   encoding/json: what json.Unmarshal into a map[string]any returns for the decoded bytes (object
+   with that content / null / error); every theorem holds for every such function (C18_dispatch:
+   for every one that decodes only texts starting with '{' or white space into a map); the case
+   runner uses the reference reader Model/JwtJson.v for it.
    The specification side ([no_dot], [shows], [hidden], [listing], [subseq], [registered_names],
    [algs12], [url_char]) is defined in Proofs/Jwt.v independently of the converters of the model. *)
 From WI Require Import Lib.Base Lib.Info Lib.Time Model.Base64 Model.Jwt Proofs.Jwt.
